@@ -29,7 +29,8 @@ type execProfile struct {
 var (
 	execErrs = []ErrD{sent(0), sent(1), wrap(sent(0)), {K: "TypedP", A: 1, B: 0}, {K: "Open"}, {K: "Timeout"}, {K: "Exceeded", A: 1, Sub: []ErrD{sent(0)}},
 		wrap(join(sent(1), ErrD{K: "TypedP", A: 1, B: 0})), join(sent(2), wrap(sent(0))),
-		{K: "TypedP", A: 1, B: typedNilB}, ErrD{K: "TypedP", A: asShimTy, B: 0}}
+		{K: "TypedP", A: 1, B: typedNilB}, ErrD{K: "TypedP", A: asShimTy, B: 0},
+		wrap(ErrD{K: "Timeout"}), join(sent(1), ErrD{K: "Timeout"}), {K: "TypedV", A: sliceTy, B: 3}}
 )
 
 func genOutcome(r *Rng) OutD {
@@ -215,6 +216,10 @@ func genPolicy(r *Rng, kind string, pos int, g *instGen) PolD {
 		p := PolD{K: "Cache", Inst: g.cache(r), Key: Pick(r, []int64{0, 1, 1, 2, 3})}
 		if r.Chance(35) {
 			p.CacheIf = []PredD{Pick(r, []PredD{{K: "ResGe", Z: 1}, {K: "HasErr"}, {K: "Always"}, {K: "ResEq", Z: 7}})}
+			if r.Chance(40) {
+				// several conditions: a result that satisfies ANY of them is stored, in whatever order they were registered
+				p.CacheIf = append(p.CacheIf, Pick(r, []PredD{{K: "ResEq", Z: 0}, {K: "ResEq", Z: 2}, {K: "HasErr"}, {K: "ResGe", Z: 7}}))
+			}
 		}
 		return p
 	}
@@ -471,6 +476,7 @@ func TestDrive_C02(t *testing.T) {
 			visitedBetweenOuterAttempts(rng, n/4, add)
 			nestedRetryExhaustedByDuration(rng, n/5, add)
 			unlimitedRetriesWithMaxDuration(rng, n/5, add)
+			waitOutsideRetryOutlastsMaxDuration(rng, n/5, add)
 		})
 }
 
@@ -812,6 +818,43 @@ func unlimitedRetriesWithMaxDuration(rng *Rng, n int, add func(InstD, []ReqD, st
 	}
 }
 
+// a wait OUTSIDE the retry policy (a rate limiter that grants its permit after a wait) that alone outlasts the retry policy's max
+// duration: the max duration is the execution's, so the first failure already finds it exceeded
+func waitOutsideRetryOutlastsMaxDuration(rng *Rng, n int, add func(InstD, []ReqD, string)) {
+	for i := 0; i < n; i++ {
+		g := &instGen{}
+		interval := int64(4+rng.Intn(6)) * 2048
+		g.inst.Limiters = append(g.inst.Limiters, LimCfg{Smooth: true, ViaRate: true, Interval: interval, MaxWait: 1 << 40})
+		rp := PolD{K: "Retry", MaxRetries: int64(2 + rng.Intn(2)), MaxDuration: interval/2 + 300, Delay: Pick(rng, []int64{0, 512})}
+		stack := []PolD{{K: "Limiter", Inst: 0, MaxWait: 1 << 40}, rp}
+		entry := Pick(rng, append(append([]string{}, execEntries...), plainEntries...))
+		fail := []FnStepD{{Out: OutD{Err: &ErrD{K: "Sent", A: 0}}, Dur: 128}}
+		// the first execution takes the free permit and leaves at once; the second one has to wait a whole interval for its permit
+		reqs := []ReqD{{Stack: stack, CtxKey: -1, Entry: entry, Script: []FnStepD{{Out: OutD{R: 0}, Dur: 0}}},
+			{Stack: stack, CtxKey: -1, Entry: entry, Gap: 16, Script: fail}}
+		add(g.inst, reqs, "wait-outside-retry-outlasts-max-duration")
+	}
+}
+
+// a rate limiter wait that is cancelled keeps the slot it was promised: the next execution queues behind it
+func cancelledLimiterWaitKeepsItsSlot(rng *Rng, n int, add func(InstD, []ReqD, string)) {
+	for i := 0; i < n; i++ {
+		g := &instGen{}
+		interval := int64(4+rng.Intn(6)) * 2048
+		g.inst.Limiters = append(g.inst.Limiters, LimCfg{Smooth: true, ViaRate: true, Interval: interval, MaxWait: 1 << 40})
+		stack := []PolD{{K: "Limiter", Inst: 0, MaxWait: 1 << 40}}
+		if rng.Bool() {
+			stack = append([]PolD{{K: "Retry", MaxRetries: 1}}, stack...)
+		}
+		entry := Pick(rng, []string{"Get", "GetWithExecution", "GetAsync", "GetWithExecutionAsync"})
+		ok := []FnStepD{{Out: OutD{R: 1}, Dur: 64}}
+		reqs := []ReqD{{Stack: stack, CtxKey: -1, Entry: entry, Script: ok},
+			{Stack: stack, CtxKey: -1, Entry: entry, Gap: 16, Script: ok, ExtT: interval / 2, ExtKind: Pick(rng, []string{"Cancel", "Deadline"})},
+			{Stack: stack, CtxKey: -1, Entry: entry, Gap: 16, Script: ok}}
+		add(g.inst, reqs, "cancelled-limiter-wait-keeps-its-slot")
+	}
+}
+
 // verdict plumbing: an inner policy classifies a plain non-error result as a failure and hands it on (retry with
 // ReturnLastFailure, breaker / fallback with a result condition); verdict-sensitive policies sit directly around it
 // (cache, fallback, retry, breaker, timeout), and the same stack runs two or three times on the same instances.
@@ -914,6 +957,7 @@ func limiterWaitScenarios(rng *Rng, n int, add func(InstD, []ReqD, string)) {
 
 func TestDrive_C16(t *testing.T) {
 	driveNestedHedgeProbes(t, "C16p")
+	driveAsyncCancelEventProbes(t)
 	pf := execProfile{name: "C16", kinds: allKinds, maxDepth: 5, extPct: 10, coopPct: 40, maxReqs: 4, hedgePct: 20}
 	driveExec(t, "C16", pf, 400, 12000, "random stacks and histories as for C01, with every policy listener registered and executor listeners registered in random subsets; plus retry policies around a rate limiter with a max wait time whose granted-after-a-wait attempt is cancelled during the wait (after refused attempts); plus nested retry policies whose inner policy is exhausted by its max duration and re-entered by the outer one. "+execRule,
 		func(w *CaseWriter, rng *Rng, add func(InstD, []ReqD, string)) {
@@ -1109,6 +1153,7 @@ func preCancelled(rng *Rng, n int, needTimeout bool, add func(InstD, []ReqD, str
 }
 
 func TestDrive_C08(t *testing.T) {
+	driveCancelAfterHedgeLoserProbes(t)
 	pf := execProfile{name: "C08", kinds: []string{"Retry", "Retry", "Fallback", "Breaker", "Bulkhead", "Limiter", "Timeout"}, hedgePct: 20, maxDepth: 4, mustHave: "Retry", extPct: 0, coopPct: 60, maxReqs: 1}
 	driveExec(t, "C08", pf, 0, 0,
 		"single executions through stacks containing a retry policy (optionally with fallback, breaker, bulkhead, rate limiter, timeout); each scenario is first run without cancellation, then re-run with the caller's context cancelled (or its deadline reached, or -- async entry points -- ExecutionResult.Cancel() called) at instants taken from the uncancelled run's own event times, 1ns before and after them and midway between them, so that the cancellation lands inside the function, between attempts, during each kind of wait and before the first attempt. Non-trivial = the cancellation changed the outcome. "+execRule,
@@ -1121,6 +1166,7 @@ func TestDrive_C08(t *testing.T) {
 			slowFallbackCancelled(rng, n/4, add)
 			slowRetryListenerCancelled(rng, n/4, add)
 			timeoutCutsInnerWaitOnLaterAttempts(rng, n/5, add)
+			cancelledLimiterWaitKeepsItsSlot(rng, n/5, add)
 			preCancelled(rng, n/5, false, add)
 			hedgeWinsThenCancelInDelay(rng, n/4, add)
 			// a waiting policy OUTSIDE the retry policy, cancelled in the middle of its wait
